@@ -46,7 +46,8 @@ Record case := {
   c_aspect : N;              (* 0 = everything but ..., 1 = ... targets inside list items vs the dump *)
   c_fixed : N;               (* which repairs the implementation under test carries (tie/props/c15.py FIXES_APPLIED):
                                 bit 0 = fixes/C15-link-key-prefix-overlap.patch (model: build_fixed),
-                                bit 1 = fixes/C15-list-item-target-in-dump.patch (model: strip_fixed) *)
+                                bit 1 = fixes/C15-list-item-target-in-dump.patch (model: strip_fixed),
+                                bit 2 = fixes/C15-subcommand-env-defaults-stale-target.patch (model: reload_sub true) *)
   c_sub : option subcase;    (* Some: the declarations/links/input above belong to the TOP parser of a parser tree *)
   o_build : list N;
   o_required : list key;
@@ -202,6 +203,22 @@ Definition judge_tree (c : case) (sb : subcase) : verdict :=
                 | POk _, None => false
                 | _, _ => true
                 end in
+  (* partial model of the re-parse of the dump: it predicts the rejection of finding 4 and nothing else *)
+  let plain_sub := negb (existsb (fun d => is_class_kind (d_kind d)) (sb_decls sb)) in
+  let m_reparse := match o_parse c, o_dump c, o_reparse c with
+                   | POk _, Some d, Some r =>
+                       match get d [n] with
+                       | Some sub =>
+                           if plain_sub
+                           then match reload_sub fn_interp (N.testbit (c_fixed c) 2) q sub with
+                                | Err EOther => match r with PRejected => true | _ => false end
+                                | _ => true
+                                end
+                           else true
+                       | None => true
+                       end
+                   | _, _, _ => true
+                   end in
   let s_core :=
     not_required sl required
     && match o_parse c with
@@ -217,8 +234,9 @@ Definition judge_tree (c : case) (sb : subcase) : verdict :=
        | PLinked | PRejected => true
        | PCrash => false
        end in
-  {| v_model := m_build && m_parse && m_dump && m_save;
+  {| v_model := m_build && m_parse && m_dump && m_save && m_reparse;
      v_class := if negb (overlap_free (select (c_links c) (o_build c)) && overlap_free (select (sb_links sb) (sb_build sb))) then 1
+                else if stale_default_target fn_interp (c_classes c) q then 4
                 else match o_parse c with
                      | POk cfg => if skipped_target_present (p_links p) cfg
                                      || match get cfg [n] with Some s => skipped_target_present (p_links q) s | None => false end
